@@ -77,6 +77,21 @@ def taint_controls(ctx, rep):
     got = {f: tainted_sink(f) for f in ("print_ok", "print_bad", "print_bad2")}
     if got != {"print_ok": False, "print_bad": True, "print_bad2": True}:
         _fail(rep, "taint", "taint control: %s" % got)
+    from .props.c18 import ByteTaint, char_positions
+    B = ByteTaint(mod, CallGraph(mod), [("Hdr", "size")], [], {"safe_printf"})
+
+    def byte_sink(fname):
+        fn = mod.fn(fname)
+        for c in fn.insts():
+            if c.op == "call" and mod.callee_cname(c) == "printf":
+                fmt = mod.const_string(c.ops[0])
+                pos = char_positions(fmt.split(b"\0")[0].decode("latin-1"), 1) if fmt else []
+                if any(k < len(c.ops) and B.is_tainted(fn, c.ops[k]) for k in pos):
+                    return True
+        return False
+    gotb = {f: byte_sink(f) for f in ("byte_ok", "byte_bad", "byte_bad2")}
+    if gotb != {"byte_ok": False, "byte_bad": True, "byte_bad2": True}:
+        _fail(rep, "byte-taint", "numbers printed as raw bytes control: %s" % gotb)
     ok_vals = find_byte_loops(mod.fn("scrub_ok"))[0].final_values
     bad_vals = find_byte_loops(mod.fn("scrub_bad"))[0].final_values
     if not (ok_vals <= set(range(0x20, 0x7f))) or (bad_vals <= set(range(0x20, 0x7f))):
